@@ -36,6 +36,12 @@ def load(repo=None):
 def verify(ct, reg, qname, N=None, tier="quick"):
     u = Unit(ct, reg, qname, N, tier)
     obls = u.run()
+    c = reg.contracts[qname]
+    if N is not None and c.N_light and N != c.N[0]:
+        # the generic part of this function is proved once (first N); for the other node classes only the obligations
+        # that depend on the node constructor are kept
+        obls = [o for o in obls if "NI" in o.props or "__init__/" in (o.label or "") or o.kind == "canary"]
+        u.obls = obls
     bg = u.bg + num.axioms_for(u.used)
     for o in obls:
         o.bg = getattr(o, "own_bg", bg)
